@@ -37,7 +37,8 @@ INSTANCE_CAP_S = 300
 
 def instances(tier, seed):
     out = []
-    names = ['two_indep', 'nested', 'nested3', 'incompat', 'incompat3', 'shared_option', 'dv', 'dv_linked', 'sel_linked', 'sel_forced_linked', 'dv_or_existence', 'conn_cond', 'conn_dv', 'conn_opt_src']
+    names = ['two_indep', 'nested', 'nested3', 'incompat', 'incompat3', 'shared_option', 'dv', 'dv_linked', 'sel_linked', 'sel_forced_linked', 'dv_or_existence', 'dv_same_name', 'conn_cond', 'conn_dv', 'conn_opt_src',
+             'conn_infeasible_scenario', 'conn_infeasible_dv', 'conn_two_infeasible']
     if tier == 'thorough':
         names = list(dsg_pool.TEMPLATES)
     names = names+[f'fast:{n}' for n in FAST_TEMPLATES]
